@@ -107,6 +107,8 @@ def main():
             out = r.stdout.decode("utf-8", "replace")
             kinds = sorted(set(l.split("violation kind=")[1].split(":")[0] for l in out.splitlines() if l.startswith("violation kind=")))
             results[p] = {"exit": r.returncode, "kinds": kinds}
+            if r.returncode == 2:
+                results[p]["harness"] = [l[:400] for l in out.splitlines() if l.startswith("HARNESS-ERROR")][:3]
             print("  %s exit=%s %s" % (p, r.returncode, kinds))
     finally:
         if scratch:
